@@ -99,6 +99,10 @@ func c04Main(args []string) error {
 			o.imm = 4 << 20 // avoid most remaps (which block on open readers) in reader histories
 		}
 		lines := genHistory(cr, cfg, o)
+		if i%10 == 3 && *sched == 0 && !*backups && !*surgery && !cfg.selfmoves {
+			// one history in ten is a MoveBucket scenario (cached instances, stale headers, frees made below a moved bucket)
+			lines = genMoveScenario(cr, o, (i/10)%3)
+		}
 		if *sched > 0 {
 			// C13: the same history under different option schedules; options are re-drawn at every open,
 			// read-only opens (with and without preloading the freelist) are slipped in before reopenings
